@@ -71,13 +71,13 @@ def run(ctx) -> None:
     P.install_probes()
     try:
         for it in range(ctx.pick(320, 2500)):
-            n = rng.choice([1, 2, 3, 5, 8])
-            nstreams = rng.choice([1, 2, 2, 3])
+            n = rng.choice([1, 2, 3, 5, 8, 8, 40])
+            nstreams = rng.choice([1, 2, 2, 3, 5])
             sids = rng.sample(IDS, nstreams)
             tb = P.Table(n, streams=sids, with_z=rng.random() < 0.7, with_pos=rng.random() < 0.7,
                          secs=None if rng.random() < 0.5 else c05.gen_irregular(rng, n))
             lay = P.window_layouts(tb)
-            nctx = rng.choice([1, 1, 2, 3])
+            nctx = rng.choice([1, 1, 2, 3, 5])
             # disjoint windows so that each row gets one flag per test
             cuts = sorted(rng.sample(range(n + 1), min(n + 1, nctx + 1))) if nctx > 1 else None
             wins = [(None, None)] if nctx == 1 and rng.random() < 0.5 else None
